@@ -23,6 +23,7 @@ struct XRep {
   int kind = RK_UNKNOWN;
   bool fatal = false;
   int exp = -1, mon = -1;
+  int seqidx = -1;                 // monitor sequence mismatch: which of the monitor's sequences
   int fn = 0;
   int args[2] = {0, 0};
   std::vector<int> sat_list;       // no-match: saturated expectations that accept the call
